@@ -108,7 +108,7 @@ def sections(tier):
         for N in (MESH3 if dim == 3 else MESH2):
             if tier == 'quick' and N in ((5, 5, 5),) and c in ('hcp',):
                 continue
-            secs.append(S('mesh:%s:%s' % (c, 'x'.join(map(str, N))), mesh(c, N), budget_s=170 if tier == 'quick' else 3000, replayer='mesh',
+            secs.append(S('mesh:%s:%s' % (c, 'x'.join(map(str, N))), mesh(c, N), budget_s=170 if tier == 'quick' else 1200, replayer='mesh',
                           config=c, maxpaths=2, timeout_ms=30000))
     return secs
 
